@@ -23,6 +23,19 @@ def main():
         if getattr(mod, 'NOT_READY', None):
             na.append(dict(property_id=pid, reason=mod.NOT_READY))
             continue
+        technique = getattr(mod, 'TECHNIQUE', 'Lean 4 proof + correspondence check')
+        note = mod.LEVEL_NOTE
+        try:
+            import srcobl
+            src = srcobl.theorems(pid)
+        except Exception:      # noqa
+            src = []
+        if src:
+            technique += (' + source-equivalence theorems (%d function bodies re-translated from /repo into Lean on every run '
+                          'by harness/py2lean.py, each proved equal to the model function for all inputs)' % len(src))
+            note += ('  Source tie: %d theorems `<name>_src_eq` (Props/Src*.lean) over definitions regenerated from the current '
+                     'source; trusted: the translator and the Python primitives of Model/PyPrelude.lean etc., validated on every '
+                     'run by a source-level differential (real function vs translation vs model expression).' % len(src))
         checks.append(dict(
             property_id=pid,
             quick_cmd='./check %s --tier quick' % pid,
@@ -31,8 +44,8 @@ def main():
             replay_cmd_template='./check %s --replay {path}' % pid,
             engine='lean4-model',
             level_claimed=dict(category='proof', text=mod.LEVEL_TEXT, design_ref=getattr(mod, 'DESIGN_REF', 'DESIGN.md section 5')),
-            level_note=mod.LEVEL_NOTE,
-            technique=getattr(mod, 'TECHNIQUE', 'Lean 4 proof + correspondence check'),
+            level_note=note,
+            technique=technique,
         ))
     m = dict(
         version=1,
@@ -44,7 +57,7 @@ def main():
                       kind_free_text='Lean 4 model + theorems (lake project), compiled line-protocol driver, '
                                      'Python correspondence harness under harness/')],
         checks=checks,
-        notes='Every check: regenerate Gen tables from /repo, lake build the property theorems, #print axioms audit, '
+        notes='Every check: regenerate Gen tables and translated function bodies (Gen/Src*.lean) from /repo, lake build the property theorems, #print axioms audit, '
               'run the correspondence between the compiled Lean model and the real code, search for a failing input '
               'when anything broke. Fix commits in /repo are listed in known_findings.json.',
         not_applicable=na,
